@@ -18,8 +18,9 @@ pub struct DispCfg;
 impl Driver for DispCfg {
     fn gen(&self, rng: &mut Rng, _i: u64) -> Value {
         let n = 1 + rng.next() % 4;
-        let ups: Vec<Value> = (0..n).map(|_| json!({"sender": if rng.next() % 4 == 0 { "mallory" } else { "owner" }, "rate": if rng.next() % 3 == 0 { Value::Null } else { json!(rate(rng).to_string()) },
-                                                   "stsei_denom": rng.next() % 4 == 0, "keeper": rng.next() % 3 == 0})).collect();
+        let dn = ["usei", "uusd", "uatom", "usdr"];
+        let ups: Vec<Value> = (0..n).map(|_| if rng.next() % 3 == 0 { json!({"sender": if rng.next() % 5 == 0 { "mallory" } else { "owner" }, "swap_denom": dn[(rng.next() % 4) as usize], "is_add": rng.next() % 2 == 0}) } else { json!({"sender": if rng.next() % 4 == 0 { "mallory" } else { "owner" }, "rate": if rng.next() % 3 == 0 { Value::Null } else { json!(rate(rng).to_string()) },
+                                                   "stsei_denom": rng.next() % 4 == 0, "keeper": rng.next() % 3 == 0}) }).collect();
         json!({"init_rate": rate(rng).to_string(), "updates": ups})
     }
     fn run(&self, input: &Value) -> Outcome {
@@ -36,6 +37,22 @@ impl Driver for DispCfg {
             for up in input["updates"].as_array().unwrap() {
                 let before = read_config(&deps.storage).unwrap();
                 let sender = up["sender"].as_str().unwrap();
+                if let Some(dnm) = up["swap_denom"].as_str() {
+                    // UpdateSwapDenom: adding lists the denom (whether or not it was listed), removing unlists it, nothing else moves
+                    let is_add = up["is_add"].as_bool().unwrap_or(true);
+                    let snap: Vec<(Vec<u8>, Vec<u8>)> = deps.storage.range(None, None, Order::Ascending).collect();
+                    let r = execute(deps.as_mut(), mock_env(), mock_info(sender, &[]), ExecuteMsg::UpdateSwapDenom { swap_denom: dnm.to_string(), is_add });
+                    if r.is_err() { let mut st = MockStorage::default(); for (k, v) in snap.iter() { st.set(k, v); } deps.storage = st; }
+                    if r.is_ok() {
+                        let after = read_config(&deps.storage).unwrap();
+                        and(&mut c, "dcfg#C10.owner_only", sender == "owner");
+                        let others_same = ["usei", "uusd", "uatom", "usdr"].iter().filter(|d| **d != dnm).all(|d| before.swap_denoms.iter().any(|x| x == d) == after.swap_denoms.iter().any(|x| x == d));
+                        and(&mut c, "dcfg#C20.swap_denom_added_or_removed_exactly", after.swap_denoms.iter().any(|x| x == dnm) == is_add && others_same
+                            && after.krp_keeper_rate == before.krp_keeper_rate && after.stsei_reward_denom == before.stsei_reward_denom && after.bsei_reward_denom == before.bsei_reward_denom);
+                    }
+                    trace.push(json!({"sender": sender, "swap_denom": dnm, "is_add": is_add, "accepted": r.is_ok()}));
+                    continue;
+                }
                 let nr = if up["rate"].is_null() { None } else { Some(u(&up["rate"])) };
                 let msg = ExecuteMsg::UpdateConfig { hub_contract: None, bsei_reward_contract: None, stsei_reward_denom: if up["stsei_denom"].as_bool().unwrap_or(false) { Some("uother".into()) } else { None },
                     bsei_reward_denom: None, krp_keeper_address: if up["keeper"].as_bool().unwrap_or(false) { Some("keeper2".into()) } else { None }, krp_keeper_rate: nr.map(dec) };
